@@ -150,6 +150,8 @@ pub fn to_token_stream(this: &Plurals, strings_count: usize) -> TokenStream {
     quote! {
         {
             #captured_values
+            // the count is moved in the closure, clone it as it can be used by other plurals/ranges of the same value.
+            let #count_key = core::clone::Clone::clone(&#count_key);
             let _plural_rules = l_i18n_crate::__private::get_plural_rules(#locale_field, #rule_type);
             move || {
                 match _plural_rules.category_for(#count_key()) {
